@@ -231,7 +231,9 @@ def publish_rule(run, f, rid):
         w = find_calls(b, callee_is(POOL + "::wait_task_result"))
         ok = len(w) == 1 and derives_from_call(b, du, w[0][1]["args"][1], (w[0][0], "term"), lambda c, t: c == "net::join::JoinHandle::id")
         fc = field_chain(b, du, w[0][1]["args"][0]) if w else []
-        if ok and "0" in fc:
+        # the receiver is the handle's own event-loop field (positional `.0` or named), told by its type
+        jf = {x["name"]: x["ty"] for x in ((f.nadts.get("net::join::JoinHandle") or {}).get("variants") or [{}])[0].get("fields", [])}
+        if ok and any("EventLoop" in jf.get(x, "") for x in fc):
             run.ok(rid, "JoinHandle/own-id", "self.0.wait_task_result(self.id()?, ..)")
         else:
             run.fail(rid, "JoinHandle/own-id", b.loc(), "JoinHandle must wait on its own loop (self.0) for its own id")
